@@ -10,6 +10,7 @@ sys.path.insert(0, os.path.join(V, "harness"))
 props = [json.loads(l) for l in open(os.path.join(V, "properties.jsonl"))]
 na_reasons = json.load(open(os.path.join(V, "tools", "not_applicable.json")))
 checks, na = [], []
+integrated = json.load(open(os.path.join(V, "tools", "integrated.json")))
 for p in props:
     pid = p["id"]
     f = os.path.join(V, "harness", "props", pid.lower() + ".py")
@@ -23,8 +24,11 @@ for p in props:
     for node in ast.parse(src).body:
         if isinstance(node, ast.Assign) and isinstance(node.targets[0], ast.Name) and \
                 node.targets[0].id in ("LEVEL_TEXT", "LEVEL_NOTE", "TECHNIQUE", "DESIGN_REF", "ID", "READY"):
-            ns[node.targets[0].id] = ast.literal_eval(node.value)
-    if not ns.get("READY"):
+            try:
+                ns[node.targets[0].id] = ast.literal_eval(node.value)
+            except Exception:
+                ns[node.targets[0].id] = eval(compile(ast.Expression(node.value), f, "eval"), {})
+    if not ns.get("READY") or pid not in integrated:
         na.append({"property_id": pid, "reason": na_reasons["reasons"].get(pid, "check under construction, not yet sound enough to register (see DESIGN.md section 7)")})
         continue
     checks.append({
